@@ -3,6 +3,7 @@ import AdfObdd.PreGround
 import AdfObdd.AdfModel
 import AdfObdd.CompleteExact
 import AdfObdd.OpsProofs
+import AdfObdd.BioProofs
 /-! # C02 — complete-model enumeration: sound, complete (and duplicate free through C20)
 
 The code enumerates the refinements of the grounded interpretation with the three-valued iterator
@@ -69,5 +70,71 @@ example : [none] ∉ (completeAll Store.init 1 [1]).2.2.map (fun v => v.map stor
   have e : Gam (List.map (eval Store.init) [1]) [none] = [some true] := by
     simp [Gam, constOf_some, eval_one]
   rw [e] at this; cases this
+
+end C02
+
+/-! ## the biodivine back-end (`adfbiodivine.rs`): `Adf::complete` -/
+namespace C02
+
+/-- `Adf::complete` of the SECOND back-end (model: `Bio.bioComplete`, BioModel.lean — the three-valued
+iterator over `grounded_internal(&self.ac)`, filtered by `cmp_information` of every condition
+restricted by the candidate's decided statements).
+
+ASSUMPTION ABOUT THE EXTERNAL LIBRARY (`biodivine_lib_bdd`, not modelled): `W : Bio.Lawful L n` —
+every diagram of the variable set denotes a Boolean function, `select` conjoins the given literals,
+`exists` projects the given variables away, `and` / `iff` / `eval_expression` compute what they
+say, `is_true` / `is_false` are exact, `sat_valuations` enumerates every satisfying total valuation
+once. Nothing else about the library is used; `restrict` = cofactor and the loop bound of
+`grounded_internal` are PROVED from these laws (`Bio.restrict_den`, `Bio.groundedLoopB_fuel`).
+
+For every lawful library and valid conditions: read as three-valued interpretations the answers
+contain no duplicate, are exactly the fixpoints of Γ of length `n`, the first answer is the
+grounded vector, and that vector is the least fixpoint. -/
+theorem biodivine_complete_exact {T : Type} (L : Bio.Lib T) (n : Nat) (W : Bio.Lawful L n)
+    (ac : List T) (hv : ∀ a ∈ ac, W.Valid a) (hn : ac.length = n) :
+    let D := ac.map W.den
+    let out := (Bio.bioComplete L ac).map (fun v => v.map storeIsConst)
+    out.Nodup ∧ (∀ w : I3, w ∈ out ↔ (w.length = n ∧ Gam D w = w)) ∧
+    (Bio.bioComplete L ac).head? = some (Bio.bioGrounded L ac) ∧
+    IsLfp D ((Bio.bioGrounded L ac).map storeIsConst) :=
+  Bio.bioComplete_exact W ac hv hn
+
+/-- the same for ANY list of conditions given as Boolean functions, on the ideal library (terms are
+the functions themselves; it satisfies every assumption: `Bio.fnLawful`) -/
+theorem biodivine_complete_exact_ideal (D : List BoolFn) :
+    let out := (Bio.bioComplete (Bio.fnLib D.length) D).map (fun v => v.map storeIsConst)
+    out.Nodup ∧ (∀ w : I3, w ∈ out ↔ (w.length = D.length ∧ Gam D w = w)) ∧
+    (Bio.bioComplete (Bio.fnLib D.length) D).head? = some (Bio.bioGrounded (Bio.fnLib D.length) D) ∧
+    IsLfp D ((Bio.bioGrounded (Bio.fnLib D.length) D).map storeIsConst) := by
+  have h := Bio.bioComplete_exact (Bio.fnLawful D.length) D (fun _ _ => trivial) rfl
+  have e : D.map (Bio.fnLawful D.length).den = D := by
+    show D.map (fun f => f) = D
+    simp
+  rw [e] at h
+  exact h
+
+/-! non-vacuity on the computable truth-table library (`Bio.ttLib`, lawful: `Bio.ttLawful`): two
+statements attacking each other, `a : ¬b` (table 3), `b : ¬a` (table 5) — the hypotheses hold, the
+model returns three answers with the grounded (all-undecided) interpretation first, and the
+theorem turns membership into the fixpoint property and back -/
+example : (Bio.bioComplete (Bio.ttLib 2) [3, 5]).map Bio.toI3 =
+    [[none, none], [some true, some false], [some false, some true]] := by decide
+
+example : Gam ([3, 5].map (Bio.ttDen 2)) [some true, some false] = [some true, some false] :=
+  (((biodivine_complete_exact (Bio.ttLib 2) 2 (Bio.ttLawful 2) [3, 5]
+      (fun a ha => Bio.ttValid_of_lt (by
+        have : a = 3 ∨ a = 5 := by simpa using ha
+        rcases this with h | h <;> subst h <;> decide)) rfl).2.1 [some true, some false]).mp
+    (by decide)).2
+
+/-- … and refutable: `[T, T]` is not an answer, hence not a fixpoint -/
+example : ¬ Gam ([3, 5].map (Bio.ttDen 2)) [some true, some true] = [some true, some true] := by
+  intro h
+  have := ((biodivine_complete_exact (Bio.ttLib 2) 2 (Bio.ttLawful 2) [3, 5]
+      (fun a ha => Bio.ttValid_of_lt (by
+        have : a = 3 ∨ a = 5 := by simpa using ha
+        rcases this with h | h <;> subst h <;> decide)) rfl).2.1 [some true, some true]).mpr ⟨rfl, h⟩
+  revert this
+  decide
 
 end C02
